@@ -211,7 +211,7 @@ def execute(case):
         cwd_abs = sc.root
         single = len(srcs) == 1
 
-        def run(tag, argv, stdin=None, cwd=".", plan=None, fresh=True, readonly=True):
+        def run(tag, argv, stdin=None, cwd=".", plan=None, fresh=True, readonly=True, allow_abnormal=False):
             if fresh:
                 sc.fresh_world(world)
             snap0 = core.snapshot(sc.root)
@@ -221,12 +221,14 @@ def execute(case):
             r = core.run_inv(sc, inv)
             v.account(r)
             ab = core.abnormal(r)
-            if ab:
+            if ab and not allow_abnormal:
                 v.add("C06:abnormal|%s|%s" % (tag, ab), "%s argv=%s status=%s stderr=%r" % (tag, argv, r.status(), core.text_of(r.stderr)[:300]))
             snap1 = core.snapshot(sc.root)
             d = core.snap_diff(snap0, snap1)
             if readonly:
-                muts = r.muts()
+                # (an ICE report file dropped into the cwd by a panicking process is not a source file)
+                muts = [e for e in r.muts() if "rustc-ice" not in e.raw]
+                d = {p: x for p, x in d.items() if not os.path.basename(p).startswith("rustc-ice")}
                 if muts or d:
                     v.add("C06:readonly-mode-mutates|%s" % tag, "%s argv=%s: %s %s" % (tag, argv, [e.raw for e in muts][:3], sorted(d)[:3]))
             return r, d
@@ -334,6 +336,19 @@ def execute(case):
                 v.add("C06:check-silent-on-rewritten-file", "%s would be rewritten but --check printed nothing for it" % f)
             if f not in W and (f in dchunks or f in nlonly):
                 v.add("C06:check-reports-unchanged-file", "%s is left alone by files mode but reported by --check" % f)
+        # the result channel itself fails (reader gone / disk full): whatever rustfmt does then, it must not
+        # report success for files that need rewriting
+        if W:
+            en = [32, 28, 5][case["hashseed"] % 3]
+            for tag, extra in (("check-l-stdout-error", ["--check", "-l"]), ("check-stdout-error", ["--check"]), ("files-l-stdout-error", ["-l"])):
+                ro = tag != "files-l-stdout-error"
+                rse, _ = run(tag, extra + rootargs, plan=["* write 1 @1 errno %d" % en], readonly=ro, allow_abnormal=True)
+                v.planned("stdout-errno")
+                if any(e.fault for e in rse.events):
+                    v.fired("stdout-errno")
+                    if rse.exit == 0 and rse.signal is None and not core.text_of(rse.stderr).strip():
+                        if ro or any(core.read_rel(sc.root, f) != written[f] for f in W):
+                            v.add("C06:silent-stdout-error|%s" % tag, "write to stdout failed with errno %d, yet exit 0 and nothing on stderr although %s need(s) rewriting" % (en, sorted(W)[:2]))
         rcl, _ = run("check-l", ["--check", "-l"]+ rootargs)
         if _names(rcl.stdout, cwd_abs, sc.root) != sorted(W) and not core.text_of(rcl.stderr).strip():
             v.add("C06:check-l-names", "--check -l printed %s, files rewritten %s" % (_names(rcl.stdout, cwd_abs, sc.root), sorted(W)))
